@@ -145,6 +145,10 @@ def mie_wiring(c):
     k = c.real("k", pos=True, sample=(5, 20))
     n_med = c.real("medium_index", pos=True, sample=(1, 1.6))
     n, r = c.real("n", pos=True, sample=(1.2, 2)), c.real("r", pos=True, sample=(0.1, 1))
+    # homogeneous, or layered with a core of any size: the prefactor 2 pi / k^2 does not involve the particle at all
+    layers = c.choice("sphere", ["homogeneous", "two layers"])
+    core = c.real("core_fraction", pos=True, sample=(0.2, 0.9))
+    c.requires(core < 1)
     S_sca, S_ext, S_back, asym = c.real("S_sca", sample=(0.1, 5)), c.real("S_ext", sample=(0.1, 5)), c.real("S_back", sample=(0, 5)), c.real("asym", sample=(-1, 1))
     c.requires(c.not_(c.eq(S_sca, 0)) if c.symbolic else abs(S_sca) > 1e-9)
     if c.symbolic:
@@ -167,7 +171,8 @@ def mie_wiring(c):
                 return asym
         miemod.miescatlib = Sums
         th = miemod.Mie()
-        out = c.call(th.raw_cross_sections, Sphere(n=n, r=r, center=(0, 0, 0)), k, n_med, to_vector((1, 0)))
+        sphere = Sphere(n=n, r=r, center=(0, 0, 0)) if layers == "homogeneous" else Sphere(n=[n + 0.2, n], r=[core * r, r], center=(0, 0, 0))
+        out = c.call(th.raw_cross_sections, sphere, k, n_med, to_vector((1, 0)))
     c.ensures("scattering", c.eq(out[0], 2 * c.pi * S_sca / k ** 2))
     c.ensures("extinction", c.eq(out[2], 2 * c.pi * S_ext / k ** 2))
     c.ensures("absorption-is-the-difference", c.eq(out[1], out[2] - out[0]))
